@@ -877,7 +877,14 @@ def run_suite(pid, suite, rng, tier, profiles, workdir, changed):
     violations, samples = [], []
     evaluations, nontrivial_keys = 0, set()
     dist = {}
+    all_cases = cases
     for prof in profiles:
+        # cases marked for one build profile run only there; when the release build was added to a quick run only for
+        # such cases (suite flag release_too), nothing else runs in it
+        only_marked = prof == 'release' and tier == 'quick' and suite.get('release_too') and not suite.get('both_profiles')
+        cases = [c for c in all_cases if c.meta.get('only_profile') in (None, prof) and not (only_marked and c.meta.get('only_profile') != 'release')]
+        if not cases:
+            continue
         for c in cases:
             c.debug = 0 if prof == 'release' else 1
         t_budget = 240 if tier == 'quick' else 1800
@@ -1477,6 +1484,14 @@ def gen_C16(rng, tier, changed):
                 for which in (0, 1, 6, 7):
                     cases.append(KCase(f'C16-k{kk}', 'mapfam', [which, es_src, es_dst, size], meta=dict(want=want)))
                     kk += 1
+    # lanes of more than 2^32 zero-sized elements through the three *_with_index parallel iterators (index arithmetic that is
+    # only exact below 2^32 or 2^64 / stride): release build only (four thousand million items), gap found with seeded change C16f
+    for n in ((2**32 + 1, 2**32 + 12345) if tier != 'quick' else (2**32 + 1,)):
+        for order in (0, 1):
+            for which in (0, 1, 2):
+                want = f'[{n},0,{(n * (n - 1) // 2) % 2**64}]'
+                cases.append(KCase(f'C16-z{kk}', 'par_idx_zst', [n, order, which], meta=dict(want=want, no_model=True, only_profile='release')))
+                kk += 1
     return cases
 
 
@@ -1888,7 +1903,7 @@ SUITES.update({
                 rule='shape pairs (equal, transposed, one dimension off, degenerate) <= 3x3 x four order combinations x three ownership variants x named methods and operator forms'),
     'C15': dict(gen=gen_C15, oracle=oracle_C15, files=['src/iter.rs', 'src/index.rs', 'src/parallel.rs'],
                 rule='shapes <= 4x4 after random transpose / reshape / switch-without-rearrangement prefixes; the six sequential element iterators from front, back and mixed, and the parallel with_index variants'),
-    'C16': dict(gen=gen_C16, oracle=oracle_C16, files=['src/parallel.rs'],
+    'C16': dict(gen=gen_C16, oracle=oracle_C16, files=['src/parallel.rs'], release_too=True,
                 rule='thread pools of 1..32 threads x sizes 0..50000 x per-element delay patterns; every parallel helper against its sequential counterpart on a clone'),
     'C19': dict(gen=gen_C19, oracle=oracle_C19, files=['src/convert.rs', 'src/construct.rs', 'src/macros.rs'],
                 rule='row counts 0..4 x row lengths 0..4 with one odd row at every position (shorter, longer, empty), length-coincidence cases, all conversions, constructors and macro arms'),
